@@ -15,7 +15,7 @@ import (
 //   pack 0: plain messages, 1: all answers in one container, 2/3: the same with a symbolic subset of the results
 //   gzip-packed inside their rpc_result.
 func H_C09_results(k, kind, pack int) {
-	verifrt.SetClock(1600000000, 0, 1000)
+	verifrt.SetClock(1600000000, 500000000, c09ClockStep)
 	n := newNetEnv(11)
 	n.startReader()
 	type outcome struct {
@@ -142,4 +142,16 @@ func H_C09_results(k, kind, pack int) {
 	// every content-related server message is acknowledged (C10c) - collected for information
 	rest := n.drain()
 	_ = rest
+}
+
+// c09ClockStep: nanoseconds the stub clock advances per reading (1 us by default)
+var c09ClockStep int64 = 1000
+
+// H_C09_clock: the same scenarios under a clock that stands still (step 0: coarse clock, several requests within
+// one reading) or runs backwards (negative step: the clock is set back while requests are outstanding).  The ids
+// under which the calls are registered must still be distinct, so every caller still gets its own result.
+func H_C09_clock(k, kind, pack, step int) {
+	c09ClockStep = int64(step)
+	defer func() { c09ClockStep = 1000 }()
+	H_C09_results(k, kind, pack)
 }
